@@ -288,4 +288,48 @@ theorem client_http_status (c : ClientForm) (rm : RespMeta) (sink : Sink) :
   · rintro (rfl | rfl) h <;> unfold addResponseHeaders <;> simp only [h]
   · rintro (rfl | rfl) e h <;> unfold addResponseHeaders <;> simp only [h]
 
+
+/-- The header in which each client protocol is told the compression of the response messages. -/
+def _root_.Vanguard.ClientForm.responseEncodingHeader (c : ClientForm) : Option Bytes :=
+  match c with
+  | .grpc | .grpcWeb => some (s "Grpc-Encoding")
+  | .connectStream => some (s "Connect-Content-Encoding")
+  | .connectPost | .connectGet => some (s "Content-Encoding")
+  | .rest => none
+
+private theorem e1 : canonKey (s "Grpc-Accept-Encoding") ≠ canonKey (s "Grpc-Encoding") := by decide +kernel
+private theorem e2 : canonKey (s "Trailer") ≠ canonKey (s "Grpc-Encoding") := by decide +kernel
+private theorem e3 : canonKey (s "Connect-Accept-Encoding") ≠ canonKey (s "Connect-Content-Encoding") := by decide +kernel
+private theorem e4 : canonKey (s "Accept-Encoding") ≠ canonKey (s "Content-Encoding") := by decide +kernel
+
+/-- **A response compression is declared in the client protocol's own header**: while the RPC is open (no end in
+    the head) and the response metadata names a compression, the head has exactly that name under the header the
+    client's protocol reads - so the per-message compressed flags the client sees refer to a declared compression. -/
+theorem client_encoding_header (c : ClientForm) (rm : RespMeta) (sink : Sink) (k : Bytes)
+    (hk : c.responseEncodingHeader = some k) (he : rm.end = none) (hz : rm.compression.isEmpty = false) :
+    (addResponseHeaders c rm sink).2.hdr.values k = [rm.compression] := by
+  have hne : (!rm.compression.isEmpty) = true := by simp [hz]
+  have hadd : ∀ (h : Hdr) (v : Bytes), (h.add (s "Trailer") v).values (s "Grpc-Encoding") = h.values (s "Grpc-Encoding") :=
+    fun h v => Hdr.values_add_ne h _ v _ e2
+  have hfadd : ∀ (ks : List Bytes) (h : Hdr),
+      (ks.foldl (fun acc x => Hdr.add acc (s "Trailer") x) h).values (s "Grpc-Encoding") = h.values (s "Grpc-Encoding") :=
+    fun ks h => foldl_add_values ks h _ _ e2
+  unfold addResponseHeaders
+  cases c <;> simp only [ClientForm.responseEncodingHeader, Option.some.injEq, reduceCtorEq] at hk <;> subst hk <;>
+    simp only [he, hne]
+  case grpc =>
+    have hc : (ClientForm.grpc == ClientForm.grpc) = true := by decide
+    simp only [hc, if_true, Option.isNone_none, Bool.and_self]
+    split <;> split <;> simp only [hadd, hfadd, setIf_values_ne _ _ _ _ _ e1, setIf_values_same]
+  case grpcWeb =>
+    have hc : (ClientForm.grpcWeb == ClientForm.grpc) = false := by decide
+    simp only [hc, Bool.false_and, Bool.false_eq_true, if_false, setIf_values_ne _ _ _ _ _ e1, setIf_values_same]
+  case connectStream => simp only [setIf_values_ne _ _ _ _ _ e3, setIf_values_same]
+  case connectPost => simp only [Option.bind_none, setIf_values_ne _ _ _ _ _ e4, setIf_values_same]
+  case connectGet => simp only [Option.bind_none, setIf_values_ne _ _ _ _ _ e4, setIf_values_same]
+
+example : ClientForm.grpcWeb.responseEncodingHeader = some (s "Grpc-Encoding") := rfl
+example : (addResponseHeaders .connectStream { codec := s "proto", compression := s "gzip" } {}).2.hdr.values (s "Connect-Content-Encoding") = [s "gzip"] := by
+  decide +kernel
+
 end Vanguard.C03
